@@ -1,6 +1,6 @@
 CONSTANTS MaxLen = 4
   Side = "client"
-  Cfgs = {"all"}
+  Cfgs = {"all", "idx"}
 INIT Init
 NEXT Next
 INVARIANTS FiredOnlyAfterHandshake NoOverride ExactlyItsHandler Emit
